@@ -19,7 +19,12 @@ pub fn make_case(class: &str, seed: u64, case_no: u64) -> Case {
   let huge = !soak && !cfg!(miri) && Rng::derive(seed ^ 0x4875_6765, case_no).chance(1, 40);
   let o = if huge { let _ = rng.chance(1, 4); GenOpts { max_tasks: 40, exact_only: exact, max_ops: 24, max_src: 6, max_gen: 6 } }
     else { GenOpts { max_tasks: if big { 16 } else if rng.chance(1, 4) { 10 } else { 6 }, exact_only: exact, max_ops: if big { 7 } else { 5 }, max_src: 3, max_gen: 3 } };
-  let prog = gen::gen_program(&mut rng, &o);
+  let mut prog = gen::gen_program(&mut rng, &o);
+  // One program in five hands some of its tasks to pie through Box / Rc / Arc (separate stream, see `huge`).
+  {
+    let mut wr = Rng::derive(seed ^ 0x5772_6170, case_no);
+    if wr.chance(1, 5) { for t in prog.tasks.iter_mut() { if wr.chance(1, 2) { t.wrap = 1 + wr.below(3) as u8; } } }
+  }
   let init = gen::gen_init(&mut rng, &prog);
   let hc = if class.starts_with("td") { HistClass::TopDown } else if class.starts_with("pure") { HistClass::PureBottomUp } else { HistClass::Mixed };
   let n_builds = if soak { rng.range(120, 200) } else { rng.range(6, 12) };
@@ -50,6 +55,7 @@ pub fn opts_for(which: &'static str, class: &'static str, tier: &str, seed: u64,
     pure_history: class.starts_with("pure") || class.starts_with("td"),
     idempotence_probe: (which == "C02" || (case_no % 4 == 0)) && !class.contains("inj-"),
     c03_probe: !class.starts_with("td") && !class.contains("inj-"),
+    retry_same_session: false,
     fresh_pie: tier == "thorough" && case_no % 8 == 0,
     seed, case_no,
   }
@@ -111,11 +117,11 @@ pub fn curated_all(which: &'static str, seed: u64) -> Vec<(&'static str, Case, R
   let mut v = Vec::new();
   for (name, case) in gen::curated() {
     let k = v.len() as u64;
-    v.push((name, case, RunOpts { which, class: "curated", wellformed: !name.starts_with("k2"), injected: false, pure_history: !name.starts_with("k1"), idempotence_probe: true, c03_probe: true, fresh_pie: true, seed, case_no: k }));
+    v.push((name, case, RunOpts { which, class: "curated", wellformed: !name.starts_with("k2"), injected: false, pure_history: !name.starts_with("k1"), idempotence_probe: true, c03_probe: true, retry_same_session: false, fresh_pie: true, seed, case_no: k }));
   }
   for (name, case) in gen::curated_k3() {
     let k = v.len() as u64;
-    v.push((name, case, RunOpts { which, class: "curated", wellformed: false, injected: true, pure_history: true, idempotence_probe: false, c03_probe: false, fresh_pie: false, seed, case_no: k }));
+    v.push((name, case, RunOpts { which, class: "curated", wellformed: false, injected: true, pure_history: true, idempotence_probe: false, c03_probe: false, retry_same_session: false, fresh_pie: false, seed, case_no: k }));
   }
   v
 }
@@ -167,6 +173,8 @@ pub fn run_crash_points(which: &'static str, tier: &str, seed: u64, n_cases: u64
       case.steps.insert(b, if user_code { Step::PanicAtAny(k) } else { Step::PanicAt(k) });
       let mut opts = opts_for(which, class, tier, seed, i * 1000 + k);
       opts.idempotence_probe = false;
+      // every other crash point: the panic is caught inside the pie session and the roots are required again through it
+      opts.retry_same_session = !crash_bottom_up && (i + k) % 2 == 0;
       let mut r = CaseRunner::new(&case, &opts, rep);
       r.run();
       rep.add("crash_points", 1);
